@@ -666,7 +666,7 @@ fn sound_case(ctx: &Ctx, stream: &str, idx: usize, id: String) -> Case {
     c
 }
 
-fn owning_dispatch(ctx: &Ctx, stream: &str, i: usize, id: String) -> Case {
+pub fn owning_dispatch(ctx: &Ctx, stream: &str, i: usize, id: String) -> Case {
     match i % 6 {
         0 => owning_case::<4, 16>(ctx, stream, i, id),
         1 => owning_case::<8, 64>(ctx, stream, i, id),
